@@ -5,6 +5,7 @@ import (
 	"testing"
 
 	"verif/harness/kit"
+	"verif/harness/ref"
 
 	"pgregory.net/rapid"
 )
@@ -15,10 +16,11 @@ import (
 type c09Case struct {
 	Conv    c06Case `json:"conversation"`
 	Handoff bool    `json:"handoff_to_goroutine"`
+	Command bool    `json:"a_platform_command_is_answered_at_the_end,omitempty"` // the terminal's answer is itself a delivered message that must stay what it was
 }
 
 func genC09Socket(t *rapid.T) c09Case {
-	c := c09Case{Handoff: rapid.Bool().Draw(t, "handoff")}
+	c := c09Case{Handoff: rapid.Bool().Draw(t, "handoff"), Command: rapid.IntRange(0, 2).Draw(t, "command") == 0}
 	c.Conv.HoldUs = rapid.SampledFrom([]int{0, 200, 2000}).Draw(t, "hold")
 	n := rapid.IntRange(1, 2).Draw(t, "terminals")
 	for i := 0; i < n; i++ {
@@ -38,13 +40,42 @@ func genC09Socket(t *rapid.T) c09Case {
 func checkC09Socket(c c09Case, _ *kit.Collector) kit.Result {
 	res := kit.Result{}
 	sc := Scenario{ReadHoldUs: c.Conv.HoldUs, Handoff: c.Handoff}
+	parties := len(c.Conv.Terminals) + 1
+	var ps []Step
 	for i, t := range c.Conv.Terminals {
 		steps, _ := convSteps(t, true)
+		if c.Command {
+			// before hanging up the terminal answers one platform command (0x8104 -> 0x0104)
+			last := len(steps) - 1
+			for last > 0 && steps[last].Op != "close" {
+				last--
+			}
+			tail := append([]Step{{Op: "barrier", Barrier: "conversations_over", Parties: parties}, {Op: "barrier", Barrier: "commanded", Parties: parties}, {Op: "pause", PauseUs: 20000}}, steps[last:]...)
+			steps = append(append([]Step{{Op: "respond", Rules: []Rule{{Behaviour: "answer"}}}}, steps[:last]...), tail...)
+			ps = append(ps, Step{Op: "send", Key: t.ID.key(), Cmd: 0x8104, Body: []byte{0x9c, byte(i)}, TimeoutMs: 1500, CallID: 1 + i})
+		}
 		sc.Actors = append(sc.Actors, Actor{Name: fmt.Sprintf("t%d", i), Kind: "terminal", Steps: steps})
+	}
+	if c.Command {
+		ps = append(append([]Step{{Op: "barrier", Barrier: "conversations_over", Parties: parties}}, ps...), Step{Op: "barrier", Barrier: "commanded", Parties: parties})
+		sc.Actors = append(sc.Actors, Actor{Name: "platform", Kind: "platform", Steps: ps})
+		res.Labels = append(res.Labels, "answer_to_a_command_kept")
 	}
 	h := runScenario(sc)
 	if !childVerdict(h, &res) {
 		return res
+	}
+	if c.Command { // the command frame is not part of the conversation the model judges
+		var ev []Event
+		for _, e := range h.Events {
+			if e.Kind == "recv" {
+				if f, why := ref.Validate(e.Data); why == "" && f.ID == 0x8104 {
+					continue
+				}
+			}
+			ev = append(ev, e)
+		}
+		h.Events = ev
 	}
 	kept := 0
 	for _, e := range h.Events {
